@@ -1,7 +1,7 @@
 """C17 -- action outcomes are classified exactly and output is captured intact   (model M5, DESIGN §5 C17)
 
 (T) lean/DoitModel/Props/C17.lean: classify_py, py_exec, classify_cmd (+_status, _signal), cmd_exec, task_execute,
-    task_values_lookup, restore_nested (+_any, restore_exec, forest_well_nested), restore_nested_live (the machine
+    teardown_execute, task_values_lookup, restore_nested (+_any, restore_exec, forest_well_nested), restore_nested_live (the machine
     with the Writer's live copy, + forest_well_nested_live), live_rule; counterexamples
     overlap_counterexample(_min) (F-C17a, open) and pinned_kwargs_counterexample (F-C17b, fixed).
 (K) the real PythonAction / CmdAction / Task.execute of $VERIF_REPO are run on generated cases (harness/actlib.py)
@@ -32,7 +32,7 @@ META = {
                 'doit/action.py::CmdAction._print_process_output', 'doit/action.py::CmdAction.expand_action',
                 'doit/action.py::CmdAction.action', 'doit/action.py::Writer', 'doit/action.py::PythonAction.execute',
                 'doit/action.py::PythonAction._prepare_kwargs', 'doit/action.py::create_action',
-                'doit/task.py::Task.execute', 'doit/task.py::Stream', 'doit/task.py::IOConfig',
+                'doit/task.py::Task.execute', 'doit/task.py::Task.execute_teardown', 'doit/task.py::Stream', 'doit/task.py::IOConfig',
                 'doit/exceptions.py::BaseFail', 'doit/exceptions.py::TaskFailed', 'doit/exceptions.py::TaskError',
                 'doit/runner.py::Runner.execute_task', 'doit/runner.py::MRunner.execute_task_subprocess'],
     'technique': 'Lean 4 proofs over an executable model of PythonAction/CmdAction/Task.execute and of the '
@@ -286,6 +286,9 @@ def judge(case, obs, model):
         cmp('cell-not-restored', 'P', obs['restored'], [True, True])
     elif k == 'task':
         m = model[0]
+        if case.get('teardown'):
+            # execute_teardown: same stopping rule, task.result / task.values stay untouched
+            m = dict(m, outcome=m['teardown']['outcome'], ran=m['teardown']['ran'], result=None, values=[])
         cmp('task-outcome', 'K' if m['outcome'] == 'raised' else 'P', obs['outcome'], m['outcome'])
         cmp('task-ran', 'P', obs['ran'], list(range(m['ran'])))
         cmp('task-result', 'P', obs['result'], m['result'])
@@ -479,7 +482,7 @@ def describe(case):
             case['par'], case.get('n'), case['mode'], case.get('v'),
             [[a.get('end', 'true') for a in t['actions']] for t in case['tasks']])
     if k == 'task':
-        return 'task ' + ','.join(a['ret']['cat'] if a['t'] == 'py' else 'cmd%s' % a.get('exit', ['', 0])[1]
+        return ('teardown ' if case.get('teardown') else 'task ') + ','.join(a['ret']['cat'] if a['t'] == 'py' else 'cmd%s' % a.get('exit', ['', 0])[1]
                                   for a in case['actions'])
     return '%s %s' % (k, clip(case.get('forest') or case.get('schedule'), 200))
 
@@ -576,6 +579,8 @@ def count_case(st, case):
             st.count('cmd.buffering>0')
     elif k == 'task':
         st.count('task.len:%d' % len(case['actions']))
+        if case.get('teardown'):
+            st.count('task.teardown')
         pos = next((i for i, a in enumerate(case['actions']) if action_unsuccessful(a)), None)
         st.count('task.first_bad:%s' % pos)
     elif k == 'nested':
@@ -810,7 +815,10 @@ def gen_task(rng):
             acts.append(gen_task_action(rng, bad=rng.random() < 0.3))
         else:
             acts.append(gen_task_action(rng))
-    return {'kind': 'task', 'actions': acts, 'v': rng.choice([0, 0, 1, 2])}
+    c = {'kind': 'task', 'actions': acts, 'v': rng.choice([0, 0, 1, 2])}
+    if rng.random() < 0.12:
+        c['teardown'] = True
+    return c
 
 
 def gen_forest(rng, ids, depth, budget):
